@@ -10,6 +10,9 @@ K: the real `TupimageTerminal.get_cell_size / get_max_cols_and_rows / get_optima
 F: `Tup.Spec.CellSize` (bounds, minimal box, no unused row/column, explicit kept, verbatim)
    evaluated through the driver on the *implementation's* answer, in exact rationals (the floats'
    exact values as fractions); on domain (b) with a 1e-9 relative tolerance.
+Families beyond the random ones: `ratio_boundary_cases` (image sizes constructed so that the derived dimension is exactly an
+integer number of cells - where an extra rounding step shows), `size_env_cases` (COLUMNS / LINES in the child's environment
+differ from the pty's window: the window is the terminal size the limits are judged against).
 """
 from __future__ import annotations
 
@@ -47,11 +50,12 @@ def host(ctx: Ctx) -> PtyHost:
 
 
 def close_host():
-    global _host, _host_cfg
+    global _host, _host_cfg, _host_env
     if _host is not None:
         _host.close()
     _host = None
     _host_cfg = None
+    _host_env = {}
 
 
 # ------------------------------------------------------------------------------------------------
@@ -138,11 +142,19 @@ def impl_result(r: dict) -> str:
     return f"err other:{t}:{m[:60]}"
 
 
+SIZE_ENV = ("COLUMNS", "LINES")     # what shutil.get_terminal_size / curses-style code reads instead of asking the tty
+_host_env: dict = {}
+
+
 def setup(ctx: Ctx, c: dict) -> PtyHost:
-    """window size + a TupimageTerminal with the case's configuration"""
-    global _host_cfg
+    """window size + the child's COLUMNS / LINES (c["env"], default: unset) + a TupimageTerminal with the case's configuration"""
+    global _host_cfg, _host_env
     h = host(ctx)
     h.set_winsize(*c["win"])
+    env = {k: str(v) for k, v in (c.get("env") or {}).items() if k in SIZE_ENV}
+    if env != _host_env:          # a fresh host starts without them (ptyhost scrubs the environment)
+        h.setenv(set=env, unset=[k for k in SIZE_ENV if k not in env])
+        _host_env = env
     cfg = c["cfg"]
     key = json.dumps(cfg, sort_keys=True)
     if key != _host_cfg:
@@ -177,6 +189,10 @@ def _check_case(ctx: Ctx, c: dict):
     envt = env_tokens(c)
     k = c["k"]
     ctx.count("kind:" + k)
+    if c.get("fam"):
+        ctx.count("family:" + c["fam"])
+    if c.get("env") is not None:
+        ctx.count("COLUMNS/LINES in the environment: " + (",".join(sorted(c["env"])) or "unset"))
     win, cfg = c["win"], c["cfg"]
     # ---- cell size (K) ------------------------------------------------------------------------
     rc = h.call("get_cell_size")
@@ -209,6 +225,12 @@ def _check_case(ctx: Ctx, c: dict):
     impl = impl_result(r)
     exact = _exact_domain(c, cell)
     ctx.count("domain:" + ("float-exact" if exact else "arbitrary-float"))
+    if str(c.get("fam", "")).startswith("ratio-boundary") and cell[0] >= 1 and cell[1] >= 1:
+        # how many constructed cases are judged with zero tolerance, and how many sit exactly on an integer number of cells
+        on = (Fraction(c["w"] * cell[1], c["h"] * cell[0]) * (c.get("rows") or 1)).denominator == 1 if c.get("rows") else \
+             (Fraction(c["h"] * cell[0], c["w"] * cell[1]) * (c.get("cols") or 1)).denominator == 1 if c.get("cols") else None
+        ctx.count("ratio-boundary: " + ("float-exact domain" if exact else "arbitrary-float domain (tolerance)")
+                  + ("" if on is None else (", derived dimension integral for the value asked" if on else ", off the boundary")))
     nexp = (c.get("cols") is not None) + (c.get("rows") is not None)
     ctx.count(f"explicit-dims:{nexp}")
     ctx.count("result:" + (impl.split()[0] + (":" + impl.split()[1] if impl.startswith("err") else "")))
@@ -368,6 +390,124 @@ def gen_case(rng, exact=True, fam=None):
     return c
 
 
+def _positive_cell(rng, c):
+    """make sure the case's effective cell size is >= 1x1 (a window narrower in pixels than in columns gives cell width 0)"""
+    cw, ch = _eff_cell(c["win"], c["cfg"])
+    if cw < 1 or ch < 1:
+        c["cfg"]["cell_size"] = rng.choice([[8, 16], [10, 20], [7, 3], [9, 18], [33, 17]])
+        cw, ch = c["cfg"]["cell_size"]
+    return cw, ch
+
+
+def _pick_dim(rng, lim):
+    """a number of cells 1..lim: the small ones, the limit and next to it, any magnitude in between"""
+    return max(1, min(lim, rng.choice([1, 2, 3, rng.randint(1, 12), rng.randint(1, 40), rng.randint(1, 40), lim, lim - 1,
+                                       rng.randint(1, lim), rng.randint(1, lim), rng.randint(1, lim)])))
+
+
+def ratio_boundary_cases(rng, n_bases, per_base=8):
+    """Inputs constructed ON the rounding boundary of the DERIVED dimension (one explicit dimension, or automatic dimensions with
+    one of them capped by its limit): the image is w x h = (N*cw/g)*t x (r*ch/g)*t pixels, g = gcd(N*cw, r*ch), so that with the
+    given/capping dimension r (rows, say) the exact value r*ch*w/(h*cw) of the other one IS the integer N - the image fills N
+    columns exactly, at every magnitude of N, r, t the 10^4 px bound admits. Any evaluation order that rounds an intermediate
+    quotient (w/h is not a binary fraction unless h/gcd is a power of two) can land on N + epsilon and take a whole unused
+    column; a truncating one on N - epsilon and cut one. A fifth of the cases are moved one pixel off the boundary.
+    All on the float-exact domain: the exact specification judges with zero tolerance."""
+    for _ in range(n_bases):
+        base = gen_case(rng, True, "rand")
+        base["cols"], base["rows"] = None, None
+        base["max_cols"] = rng.choice([None, None, None, 5, 80, 300, 1000])
+        base["max_rows"] = rng.choice([None, None, None, 5, 24, 100, 256, 300])
+        if rng.random() < 0.5:
+            # a roomy window, so that N and r range over every magnitude (the generic windows are mostly tiny)
+            wr, wc = rng.choice([24, 50, 100, 255, 256, 300, 1000]), rng.choice([80, 120, 200, 255, 500, 2000])
+            pw, ph = rng.choice([(8, 16), (10, 20), (9, 18), (6, 13), (7, 15), (20, 40), (0, 0)])
+            base["win"] = [wr, wc, min(65535, wc * pw), min(65535, wr * ph)]
+            if rng.random() < 0.7:
+                base["cfg"]["max_cols"] = base["cfg"]["max_rows"] = None
+        if base["scale"] is not None and frac_of(base["scale"]) == 0:
+            base["scale"] = None
+        cw, ch = _positive_cell(rng, base)
+        S = (frac_of(base["scale"]) if base["scale"] is not None else frac_of(base["cfg"]["scale"])) * frac_of(base["cfg"]["global_scale"])
+        for _j in range(per_base):
+            c = json.loads(json.dumps(base))
+            mode = rng.choice(["rows-explicit", "cols-explicit", "auto-rows-capped", "auto-cols-capped"])
+            given_rows = mode in ("rows-explicit", "auto-rows-capped")
+            if mode.startswith("auto") and rng.random() < 0.6:
+                # the capping limit is a free input of the call: any number of cells
+                c["max_rows" if given_rows else "max_cols"] = rng.choice([1, 2, 3, rng.randint(1, 40), rng.randint(1, 256), rng.randint(1, 256)])
+            lc, lr = _eff_limits(c["win"], c["cfg"], c)
+            lim_given, lim_derived = (lr, lc) if given_rows else (lc, lr)
+            over = 0
+            for _try in range(30):
+                if mode.startswith("auto"):
+                    r = lim_given                                      # the dimension is capped AT its limit
+                else:
+                    r = _pick_dim(rng, lim_given)
+                    over = rng.choice([0] * 9 + [rng.choice([1, 10, 1000])]) if r == lim_given else 0   # asked above the limit: clamped to it
+                n = _pick_dim(rng, lim_derived) if _try <= 10 else rng.randint(1, min(30, lim_derived))
+                a, b = (n * cw, r * ch) if given_rows else (r * cw, n * ch)     # w : h = a : b
+                g = math.gcd(a, b)
+                a, b = a // g, b // g
+                tmax = 10000 // max(a, b)
+                tmin = 1
+                if mode.startswith("auto"):
+                    # the capped dimension must really need more than its limit: scaled size > r cells
+                    tmin = math.floor(Fraction(g) / S) + 1 if S > 0 else tmax + 1
+                if tmax >= tmin:
+                    break
+            else:
+                continue
+            t = rng.choice([tmin, tmin, tmax, tmax, rng.randint(tmin, tmax), rng.randint(tmin, tmax), min(tmax, tmin * 2),
+                            max(tmin, tmax // 2), max(tmin, min(tmax, 1 << rng.randint(0, 13)))])
+            c["w"], c["h"] = a * t, b * t
+            if mode.endswith("explicit"):
+                c["rows" if given_rows else "cols"] = r + over
+            if rng.random() < 0.2:
+                nm = rng.choice(["w", "h"])
+                c[nm] = max(1, min(10000, c[nm] + rng.choice([-1, 1])))
+            c["fam"] = "ratio-boundary:" + mode
+            yield c
+
+
+def size_env_cases(rng, n):
+    """The calls through the real terminal object with COLUMNS / LINES in the process environment: larger than the real window,
+    smaller, equal, only one of them, the classic stale 80x24, garbage, and unset again in between. The window of the pty is the
+    only terminal size there is; the limits (and everything derived from them) are judged against it."""
+    for i in range(n):
+        if i % 5 == 4:
+            c = {"k": "max", "win": _win(rng), "cfg": _cfg(rng)}
+            c["max_cols"] = rng.choice([None, None, None, 5, 1000])
+            c["max_rows"] = rng.choice([None, None, None, 5, 1000])
+        else:
+            c = gen_case(rng, True, rng.choice(["cap", "cap", "cap", "multiple", "rand", "explicit"]))
+            if rng.random() < 0.8:
+                c["max_cols"] = c["max_rows"] = None
+            if rng.random() < 0.15:
+                c["k"] = "build"
+                c["w"], c["h"] = min(c["w"], 400), min(c["h"], 400)
+        if rng.random() < 0.8:
+            # the window is what limits the box
+            c["cfg"]["max_cols"] = c["cfg"]["max_rows"] = None
+        rows, cols = c["win"][0], c["win"][1]
+        kind = ["larger", "smaller", "stale-80x24", "larger", "smaller", "unset", "columns-only", "lines-only", "equal", "mixed", "garbage"][i % 11]
+        big = lambda v: v + rng.choice([1, 7, v, 3 * v + 5, 1000])
+        small = lambda v: max(1, rng.choice([v - 1, v // 2, v // 3, 1, 2]))
+        env = {"larger": {"COLUMNS": big(cols), "LINES": big(rows)},
+               "smaller": {"COLUMNS": small(cols), "LINES": small(rows)},
+               "stale-80x24": {"COLUMNS": 80, "LINES": 24},
+               "unset": {},
+               "columns-only": {"COLUMNS": rng.choice([big(cols), small(cols)])},
+               "lines-only": {"LINES": rng.choice([big(rows), small(rows)])},
+               "equal": {"COLUMNS": cols, "LINES": rows},
+               "mixed": {"COLUMNS": big(cols), "LINES": small(rows)} if rng.random() < 0.5 else {"COLUMNS": small(cols), "LINES": big(rows)},
+               "garbage": rng.choice([{"COLUMNS": "0", "LINES": "0"}, {"COLUMNS": "", "LINES": ""}, {"COLUMNS": "wide", "LINES": "-5"},
+                                      {"COLUMNS": "99999", "LINES": "99999"}])}[kind]
+        c["env"] = {k: str(v) for k, v in env.items()}
+        c["fam"] = "size-env:" + kind
+        yield c
+
+
 def cases(ctx: Ctx):
     rng = ctx.rng
     q = ctx.quick
@@ -387,6 +527,10 @@ def cases(ctx: Ctx):
     n = 2500 if q else 40000
     for i in range(n):
         yield gen_case(rng, True)
+    # the derived dimension exactly on (and one pixel off) its rounding boundary, constructed
+    yield from ratio_boundary_cases(rng, 220 if q else 3000)
+    # COLUMNS / LINES in the environment must not stand in for the window size
+    yield from size_env_cases(rng, 330 if q else 3300)
     # through build_image_instance (PIL image in the child)
     for i in range(40 if q else 400):
         c = gen_case(rng, True)
@@ -402,7 +546,12 @@ def run(ctx: Ctx):
     ctx.rule = ("cases: a window size (rows, cols, pixel size; incl. none/partial pixel info) x configuration (cell_size auto|WxH, "
                 "default_cell_size, max_cols/max_rows auto|int, scale, global_scale) x call (image size 1..10^4, cols/rows explicit|auto, "
                 "per-call limits incl. 0/negative, scale incl. 0) from families: scaled size at a whole number of cells (+-1 px), "
-                "image far above the limits, one explicit dimension at/around/above its limit (D10 shape), both explicit, random. "
+                "image far above the limits, one explicit dimension at/around/above its limit (D10 shape), both explicit, random; "
+                "CONSTRUCTED rounding boundaries of the derived dimension: image (N*cw/g)*t x (r*ch/g)*t px so that with r rows (cols) "
+                "given, or capping the automatic size at the limit r, the other dimension is exactly the integer N (N, r over all "
+                "magnitudes up to the limits, t up to the 10^4 px bound, a fifth one pixel off) - zero-tolerance specification; "
+                "COLUMNS / LINES set in the process environment (larger / smaller than / equal to the real window, one of them, 80x24, "
+                "garbage, unset again) while the window limits the box - judged against the pty's real window size. "
                 "Exact comparison with the Lean model on the float-exact domain; specification (driver, exact rationals) on the "
                 "implementation's answer in every in-domain case. distinct = canonical JSON of the case; every case is non-trivial "
                 "except get_max_cols_and_rows-only probes")
